@@ -274,6 +274,7 @@ pub fn extract_tls_signature_from_client_hello(
     let mut signature_algorithms = Vec::new();
     let mut elliptic_curves = Vec::new();
     let mut elliptic_curve_point_formats = Vec::new();
+    let mut supported_versions: Option<Vec<u16>> = None;
 
     // Parse extensions if present - if not present, we still generate JA4 with empty extension fields
     if let Some(ext_data) = &client_hello.ext {
@@ -312,6 +313,9 @@ pub fn extract_tls_signature_from_client_hello(
                         TlsExtension::EcPointFormats(formats) => {
                             elliptic_curve_point_formats = formats.to_vec();
                         }
+                        TlsExtension::SupportedVersions(versions) => {
+                            supported_versions = Some(versions.iter().map(|v| v.0).collect());
+                        }
                         _ => {}
                     }
                 }
@@ -322,7 +326,19 @@ pub fn extract_tls_signature_from_client_hello(
         }
     }
 
-    let version = determine_tls_version(&client_hello.version, &extensions);
+    // JA4: the highest non-GREASE entry of supported_versions when the extension lists one,
+    // otherwise the legacy version
+    let highest_supported = supported_versions.as_deref().and_then(|versions| {
+        versions
+            .iter()
+            .copied()
+            .filter(|v| !TLS_GREASE_VALUES.contains(v))
+            .max()
+    });
+    let version = match highest_supported {
+        Some(highest) => determine_tls_version(&tls_parser::TlsVersion(highest), &[]),
+        None => determine_tls_version(&client_hello.version, &extensions),
+    };
 
     Ok(Signature {
         version,
